@@ -286,7 +286,8 @@ def run(ctx):
     # A candidate that holds means the model lost the defect (or the code was repaired and the model followed).
     expected = {"ISAACExpel_c03.cfg": "ChainAgreementAnyExpel",
                 "ISAACExpel_c04.cfg": "EmittedRecountAccepted",
-                "ISAACExpel_c04b.cfg": "EmittedExpelsMatchFact"}
+                "ISAACExpel_c04b.cfg": "EmittedExpelsMatchFact",
+                "ISAACExpel_c04c.cfg": "EmittedExpelsSigned"}
     if ctx.tier == "quick":
         expected = {"ISAACExpel_c03.cfg": "ChainAgreementAnyExpel"}
     cands = {}
